@@ -54,7 +54,7 @@ def run(ck):
     vlib.conformance(ck, "G:edge-cover-replay", "TracePrintBuf", "trace.cfg", tp, deaths, diag_of, min_events=len(scripts))
     # ---- V
     tp = os.path.join(ck.dir, "v.ndjson")
-    n = 20000 if thorough else 3000
+    n = 60000 if thorough else 3000
     deaths = vlib.run_executions(exe, lambda st: ["c19", "drive", st, n, 40], n, tp)
     vlib.conformance(ck, "V:random-histories", "TracePrintBuf", "trace.cfg", tp, deaths, diag_of, min_events=n)
 
